@@ -3429,6 +3429,352 @@ def check_a2_alignment(case, ctx):
         ctx.violation("fasta|alignment|differs", "gapped sequences written from the parsed alignment differ", case, rows, got)
 
 
+
+
+# ===========================================================================
+# Third dimension audit (operand sizes in both directions, ambient state, option precedence, selection boundaries)
+# ===========================================================================
+def gen_audit3(tier, seed):
+    # F: second operand larger / smaller than the object it is put into, keys the object lacks
+    for i in range(5):
+        for j in range(5):
+            yield {"kind": "a3_merge", "fmt": "fasta", "i": i, "j": j}
+            yield {"kind": "a3_merge", "fmt": "fastq", "i": i, "j": j}
+            yield {"kind": "a3_merge", "fmt": "gff", "i": i, "j": j}
+    for rows in (2, 3):
+        for names in (0, 1, 2, 3, 4, 5):
+            yield {"kind": "a3_align_names", "rows": rows, "names": names}
+    # G: ambient state changes between / during the calls
+    for fmt in ("fasta", "fastq", "genbank", "gff"):
+        for amb in ("numpy_print", "numpy_err", "cwd", "all"):
+            yield {"kind": "a3_ambient", "fmt": fmt, "amb": amb}
+    # H: a value that can come from two places
+    for v in range(12):
+        yield {"kind": "a3_precedence", "v": v}
+    # I: boundaries of 'first entry' / 'same ID' selections
+    for v in range(10):
+        yield {"kind": "a3_selection", "v": v}
+
+
+def check_a3_merge(case, ctx):
+    """set_sequences / set_annotation INTO a file that already has content, with the second operand smaller, equal,
+    larger, overlapping and disjoint.  Model: dict update (order: see ASSUMPTIONS) / list extension."""
+    b = B()
+    fmt, i, j = case["fmt"], case["i"], case["j"]
+    ctx.ev(1, 1 if i != j else 0)
+    ctx.count("accepted")
+    N, Pr = b.seq.NucleotideSequence, b.seq.ProteinSequence
+    sets = [{}, {"a": "ACGT"}, {"a": "TT", "b": "GGA"}, {"b": "C", "c": "ACGTACGTA", "d": ""}, {"e": "A", "a": "", "c": "G", "b": "TTTT", "f": "NN"}]
+    try:
+        if fmt in ("fasta", "fastq"):
+            first, second = sets[i], sets[j]
+            model = dict(first)
+            model.update(second)
+            if fmt == "fasta":
+                f = b.fasta.FastaFile(3)
+                b.fasta.set_sequences(f, {k: N(v) for k, v in first.items()})
+                b.fasta.set_sequences(f, {k: N(v) for k, v in second.items()})
+                live = {k: str(v) for k, v in b.fasta.get_sequences(f).items()}
+                parsed = {k: v for k, v in b.fasta.FastaFile.read(io.StringIO(text_of(f))).items()} if model else {}
+            else:
+                f = b.fastq.FastqFile("Sanger", 2)
+                sc = lambda v: b.np.arange(len(v)) % 40  # noqa: E731
+                b.fastq.set_sequences(f, {k: (N(v), sc(v)) for k, v in first.items()})
+                b.fastq.set_sequences(f, {k: (N(v), sc(v) + 1) for k, v in second.items()})
+                live = {k: str(v[0]) for k, v in b.fastq.get_sequences(f).items()}
+                rd = b.fastq.FastqFile.read(io.StringIO(text_of(f)), "Sanger") if model else {}
+                parsed = {k: v[0] for k, v in rd.items()}
+                for k in model:
+                    want = [(x + (1 if k in second else 0)) % 41 if False else int(x) + (1 if k in second else 0)
+                            for x in (b.np.arange(len(model[k])) % 40)]
+                    if rd[k][1].tolist() != want:
+                        ctx.violation("merge|fastq|scores_differ", "scores after a second set_sequences differ", case, want,
+                                      rd[k][1].tolist())
+                        return
+            if live != model or parsed != model:
+                ctx.violation("merge|%s|differs|%s" % (fmt, "second_larger" if len(second) > len(first) else "second_not_larger"),
+                              "file content after two set_sequences calls is not the updated mapping", case, model,
+                              [live, parsed])
+        else:
+            P = POS_PALETTES[0]
+            pal = gb_feature_palette(P)
+            groups = [[], [0], [1, 4], [5, 7, 9], [2, 3, 8, 10, 12]]
+
+            def feats(g, tag):
+                return [{**pal[k], "qual": [q for q in pal[k]["qual"] if q[1] is not None] + [["ID", "%s%d" % (tag, k)]]} for k in g]
+            A, Bf = feats(groups[i], "x"), feats(groups[j], "y")
+            f = b.gff.GFFFile()
+            b.gff.set_annotation(f, b.Annotation([mk_feature(b, x) for x in A]), seqid="s", source="p")
+            b.gff.set_annotation(f, b.Annotation([mk_feature(b, x) for x in Bf]), seqid="t", source="q")
+            exp = expected_annots(A + Bf, drop_defects=True)[0]
+            got_live = annot_model(b, b.gff.get_annotation(f))
+            got = annot_model(b, b.gff.get_annotation(b.gff.GFFFile.read(io.StringIO(text_of(f)))))
+            if got != exp or got_live != exp:
+                ctx.violation("merge|gff|differs|%s" % ("second_larger" if len(Bf) > len(A) else "second_not_larger"),
+                              "annotation read from a GFF file filled by two set_annotation calls is not the union", case,
+                              show_annot(exp), show_annot(got))
+    except Exception as e:  # noqa: BLE001
+        ctx.violation("merge|%s|%s" % (fmt, exc_name(e)), "merging content into a file raised", case, "success", repr(e))
+        return
+    ctx.outcome(("a3_merge", fmt, i, j))
+
+
+def check_a3_align_names(case, ctx):
+    """set_alignment: number of names vs number of rows - documented ValueError when they differ (both directions)."""
+    b = B()
+    rows, names = case["rows"], case["names"]
+    ctx.ev(1, 1)
+    ctx.count("accepted" if rows == names else "refused")
+    strings = ["A-C", "AGC", "-GC"][:rows]
+    f = b.fasta.FastaFile()
+    for k, s in enumerate(strings):
+        f["s%d" % k] = s
+    ali = b.fasta.get_alignment(f)
+    g = b.fasta.FastaFile()
+    g["old"] = "TT"
+    try:
+        b.fasta.set_alignment(g, ali, ["n%d" % k for k in range(names)])
+        raised = None
+    except Exception as e:  # noqa: BLE001
+        raised = e
+    ctx.outcome(("a3_align_names", rows, names, raised is None))
+    if rows != names:
+        if raised is None:
+            ctx.violation("fasta|set_alignment|not_refused|%s" % ("more_names" if names > rows else "fewer_names"),
+                          "documented ValueError for a wrong number of names did not occur", case, "ValueError", list(g.items()))
+        elif list(g.items()) != [("old", "TT")]:
+            ctx.violation("fasta|set_alignment|refused_but_changed|%s" % ("more_names" if names > rows else "fewer_names"),
+                          "a refused set_alignment changed the file", case, [["old", "TT"]], list(g.items()))
+    elif raised is not None or list(g.items()) != [("old", "TT")] + [("n%d" % k, s) for k, s in enumerate(strings)]:
+        ctx.violation("fasta|set_alignment|differs", "set_alignment did not write the gapped rows under the given names", case,
+                      strings, repr(raised) if raised else list(g.items()))
+
+
+def check_a3_ambient(case, ctx):
+    """Ambient state as an event: numpy print options / error state and the working directory change between the calls;
+    the written text and the parsed content must equal those obtained under the default state (differential)."""
+    import os
+    import shutil
+    import tempfile
+
+    b = B()
+    np = b.np
+    fmt, amb = case["fmt"], case["amb"]
+    ctx.ev(1, 1)
+    ctx.count("accepted")
+    P = POS_PALETTES[0]
+    pal = gb_feature_palette(P)
+
+    def build():
+        if fmt == "fasta":
+            f = b.fasta.FastaFile(7)
+            b.fasta.set_sequences(f, {"a": b.seq.NucleotideSequence("ACGTNACGTN" * 3), "p": b.seq.ProteinSequence("MKL*")})
+        elif fmt == "fastq":
+            f = b.fastq.FastqFile("Solexa", 5)
+            b.fastq.set_sequence(f, b.seq.NucleotideSequence("ACGTNACGTNAC"), np.arange(-5, 7), "r")
+        elif fmt == "genbank":
+            f = b.gb.GenBankFile()
+            b.gb.set_locus(f, "X", 1234, "DNA", False, "BCT", "01-JAN-2000")
+            b.gb.set_annotated_sequence(f, b.AnnotatedSequence(b.Annotation([mk_feature(b, x) for x in pal[:9]]),
+                                                               b.seq.NucleotideSequence("ACGT" * 40), np.int64(123456)))
+        else:
+            f = b.gff.GFFFile()
+            f.append("s", "p", "CDS", np.int64(1000000), np.int64(123456789), np.float64(1e-7), b.REV, 1, {"ID": "x"})
+            f.append("s", "p", "gene", 1, 5, 0.1 + 0.2, None, None, {"k": "v"})
+        return f
+
+    def content(path_or_io, cls, *a):
+        g = cls.read(path_or_io, *a)
+        if fmt == "fasta":
+            return list(g.items())
+        if fmt == "fastq":
+            return [(k, s, q.tolist()) for k, (s, q) in g.items()]
+        if fmt == "genbank":
+            r = b.gb.get_annotated_sequence(g)
+            return [show_annot(annot_model(b, r.annotation)), str(r.sequence), int(r.sequence_start), list(b.gb.get_locus(g))]
+        return [gff_view(b, x) for x in g]
+
+    cls = {"fasta": b.fasta.FastaFile, "fastq": b.fastq.FastqFile, "genbank": b.gb.GenBankFile, "gff": b.gff.GFFFile}[fmt]
+    extra = ("Solexa",) if fmt == "fastq" else ()
+    ref_text = text_of(build())
+    ref = content(io.StringIO(ref_text), cls, *extra)
+    old_cwd = os.getcwd()
+    old_print = np.get_printoptions()
+    old_err = np.geterr()
+    d1, d2 = tempfile.mkdtemp(prefix="c12-amb-"), tempfile.mkdtemp(prefix="c12-amb-")
+    try:
+        if amb in ("numpy_print", "all"):
+            np.set_printoptions(precision=1, threshold=2, edgeitems=1, suppress=True, legacy="1.13")
+        if amb in ("numpy_err", "all"):
+            np.seterr(all="raise")
+        if amb in ("cwd", "all"):
+            os.chdir(d1)
+        f = build()
+        text = text_of(f)
+        f.write("rel.txt")  # relative path: resolved against the cwd at the time of the call
+        if amb in ("cwd", "all"):
+            os.chdir(d2)
+        where = os.path.join(d1 if amb in ("cwd", "all") else old_cwd, "rel.txt")
+        on_disk = open(where).read()
+        got = content(where, cls, *extra)
+        got2 = content(io.StringIO(text), cls, *extra)
+        if not amb in ("cwd", "all"):
+            os.unlink(where)
+    except Exception as e:  # noqa: BLE001
+        ctx.violation("ambient|%s|%s|%s" % (fmt, exc_name(e), amb), "round trip fails under a changed ambient state", case,
+                      "success", repr(e))
+        return
+    finally:
+        os.chdir(old_cwd)
+        np.set_printoptions(**old_print)
+        np.seterr(**old_err)
+        shutil.rmtree(d1, ignore_errors=True)
+        shutil.rmtree(d2, ignore_errors=True)
+    ctx.outcome(("a3_ambient", fmt, amb))
+    if text != ref_text or on_disk != ref_text or got != ref or got2 != ref:
+        ctx.violation("ambient|%s|differs|%s" % (fmt, amb), "text or parsed content depends on ambient state", case,
+                      ref_text[:400], text[:400])
+
+
+def check_a3_precedence(case, ctx):
+    """A value that can come from two places, both present and different; oracle = the documented precedence."""
+    b = B()
+    v = case["v"]
+    ctx.ev(1, 1)
+    N, Pr = b.seq.NucleotideSequence, b.seq.ProteinSequence
+    bad = None
+    unspec = False
+    try:
+        if v in (0, 1, 2, 3):
+            # get_sequence(format=) vs the molecule type in LOCUS: 'Depending on this parameter a NucleotideSequence or a
+            # ProteinSequence is returned'
+            mol, fmt, s = [("DNA", "gp", "ACGT"), ("Protein", "gb", "ACGT"), ("Protein", "gp", "MKL*"), ("DNA", "gb", "ACGTN")][v]
+            f = b.gb.GenBankFile()
+            b.gb.set_locus(f, "X", len(s), mol, False, "BCT", "01-JAN-2000")
+            b.gb.set_sequence(f, s)
+            g = b.gb.GenBankFile.read(io.StringIO(text_of(f)))
+            r = b.gb.get_sequence(g, format=fmt)
+            a = None
+            want = (Pr if fmt == "gp" else N)(s)
+            if type(r) is not type(want) or str(r) != str(want) or a is not None:
+                bad = ("genbank_format_vs_locus", [type(want).__name__, str(want)], [type(r).__name__, str(r)])
+        elif v in (4, 5):
+            # as_rna only applies to nucleotide sequences: a protein with threonine keeps its T
+            f = b.fasta.FastaFile()
+            so = [Pr("MTT*T"), N("ATTG")][v - 4]
+            b.fasta.set_sequence(f, so, "h", as_rna=True)
+            b.fasta.set_sequences(f, {"k": so}, as_rna=True)
+            raw = dict(b.fasta.FastaFile.read(io.StringIO(text_of(f))).items())
+            want = "MTT*T" if v == 4 else "AUUG"
+            back = b.fasta.get_sequence(f, "k", seq_type=type(so))
+            if raw != {"h": want, "k": want} or str(back) != str(so):
+                bad = ("as_rna_vs_sequence_type", want, [raw, str(back)])
+        elif v in (6, 7):
+            # explicit seq_type vs what the letters would be guessed as
+            s, T = [("ACGT", Pr), ("NNN", Pr)][v - 6]
+            f = b.fasta.FastaFile()
+            f["a"] = s
+            f["b"] = "MKL"
+            r = b.fasta.get_sequence(f, "a", seq_type=T)
+            d = b.fasta.get_sequences(f, seq_type=T)
+            if type(r) is not T or str(r) != s or any(type(x) is not T for x in d.values()) or str(d["a"]) != s:
+                bad = ("explicit_seq_type_vs_guess", [T.__name__, s], [type(r).__name__, str(r)])
+        elif v in (8, 9):
+            # is_stranded=False vs the strands stored in the locations: 'Otherwise the strand column is filled with .'
+            locs = [b.Location(1, 5, b.REV), b.Location(9, 12, b.FWD if v == 8 else b.REV)]
+            f = b.gff.GFFFile()
+            b.gff.set_annotation(f, b.Annotation([b.Feature("CDS", locs, {"ID": "x"})]), seqid="s", source="p", is_stranded=False)
+            g = b.gff.GFFFile.read(io.StringIO(text_of(f)))
+            rows = [gff_view(b, x) for x in g]
+            if sorted((r[3], r[4]) for r in rows) != [(1, 5), (9, 12)] or any(r[6] != 0 for r in rows) \
+                    or any(l.split("\t")[6] != "." for l in text_of(f).split("\n")[1:3]):
+                bad = ("is_stranded_false_vs_location_strand", "strand column '.'", rows)
+        elif v in (10, 11):
+            # read(chars_per_line=) vs the wrapping found in the file: existing lines are kept, new entries use the argument
+            text = ">a\nACGTACG\nTT\n"
+            f = b.fasta.FastaFile.read(io.StringIO(text), chars_per_line=[2, 100][v - 10])
+            f["b"] = "ACGTA"
+            lines = text_of(f).split("\n")
+            want_b = ["AC", "GT", "A"] if v == 10 else ["ACGTA"]
+            if dict(f.items()) != {"a": "ACGTACGTT", "b": "ACGTA"} or lines[:3] != [">a", "ACGTACG", "TT"] or lines[4:-1] != want_b:
+                bad = ("chars_per_line_argument_vs_file", want_b, lines)
+    except Exception as e:  # noqa: BLE001
+        ctx.count("accepted")
+        ctx.violation("precedence|%s|v%d" % (exc_name(e), v), "a call with the value given in two places raised", case, "success",
+                      repr(e))
+        return
+    ctx.count("unspecified" if unspec else "accepted")
+    ctx.outcome(("a3_precedence", v, bad is None))
+    if bad:
+        ctx.violation("precedence|%s" % bad[0], "documented precedence of an explicitly given value is not respected", case,
+                      bad[1], bad[2])
+
+
+def check_a3_selection(case, ctx):
+    """Selections by position / identity: the first entry when it is empty or equal to later ones; entries grouped by ID
+    (documented: entries with the same ID are one feature whose type and attributes come from the first entry)."""
+    b = B()
+    v = case["v"]
+    ctx.ev(1, 1)
+    N = b.seq.NucleotideSequence
+    bad = None
+    try:
+        if v < 4:
+            ents = [[("a", ""), ("b", "ACGT")], [("a", "AC"), ("b", "AC"), ("c", "AC")], [("a", ""), ("b", ""), ("c", "G")],
+                    [("b", "T"), ("a", "ACGT")]][v]
+            f = b.fasta.FastaFile()
+            for k, s in ents:
+                f[k] = s
+            g = b.fasta.FastaFile.read(io.StringIO(text_of(f)))
+            r = b.fasta.get_sequence(g)
+            q = b.fastq.FastqFile("Sanger")
+            for k, s in ents:
+                q[k] = (s, [30 + len(k)] * len(s))
+            qg = b.fastq.FastqFile.read(io.StringIO(text_of(q)), "Sanger")
+            r2, sc2 = b.fastq.get_sequence(qg)
+            if str(r) != ents[0][1] or str(r2) != ents[0][1] or sc2.tolist() != [31] * len(ents[0][1]):
+                bad = ("first_entry", ents[0][1], [str(r), str(r2), sc2.tolist()])
+            ctx.count("accepted")
+        else:
+            S = b.FWD
+            rowsets = [
+                # adjacent entries with the same ID and different type / attributes: one feature, first entry wins
+                ([("gene", 1, 5, {"ID": "x", "n": "1"}), ("CDS", 9, 12, {"ID": "x", "n": "2"})],
+                 [("gene", {(1, 5), (9, 12)}, {"ID": "x", "n": "1"})]),
+                # empty ID on adjacent entries is an ID like any other
+                ([("gene", 1, 5, {"ID": ""}), ("gene", 9, 12, {"ID": ""})], [("gene", {(1, 5), (9, 12)}, {"ID": ""})]),
+                # no ID: never grouped, even when everything else is equal
+                ([("gene", 1, 5, {"k": "v"}), ("gene", 9, 12, {"k": "v"})], [("gene", {(1, 5)}, {"k": "v"}), ("gene", {(9, 12)}, {"k": "v"})]),
+                # ID change back and forth (x, y, x): the two x blocks are not adjacent -> unspecified, counted
+                ([("gene", 1, 5, {"ID": "x"}), ("gene", 20, 25, {"ID": "y"}), ("gene", 9, 12, {"ID": "x"})], None),
+                # first entry without ID, then two with the same ID
+                ([("gene", 1, 5, {}), ("CDS", 7, 8, {"ID": "x"}), ("CDS", 9, 12, {"ID": "x"})],
+                 [("gene", {(1, 5)}, {}), ("CDS", {(7, 8), (9, 12)}, {"ID": "x"})]),
+                # identical duplicate rows under one ID collapse to one location (locations are a set)
+                ([("gene", 1, 5, {"ID": "x"}), ("gene", 1, 5, {"ID": "x"})], [("gene", {(1, 5)}, {"ID": "x"})]),
+            ][v - 4]
+            rows, want = rowsets
+            f = b.gff.GFFFile()
+            for typ, a, z, attrs in rows:
+                f.append("s", "p", typ, a, z, None, S, None, attrs)
+            ann = b.gff.get_annotation(b.gff.GFFFile.read(io.StringIO(text_of(f))))
+            got = sorted((ft.key, sorted((l.first, l.last) for l in ft.locs), sorted(ft.qual.items())) for ft in ann)
+            if want is None:
+                ctx.count("unspecified")
+                ctx.count("outside_statement_gff_same_id_not_adjacent_%d_features" % len(got))
+            else:
+                ctx.count("accepted")
+                exp = sorted((k, sorted(l), sorted(q.items())) for k, l, q in want)
+                if got != exp:
+                    bad = ("gff_id_grouping", exp, got)
+    except Exception as e:  # noqa: BLE001
+        ctx.violation("selection|%s|v%d" % (exc_name(e), v), "selection case raised", case, "success", repr(e))
+        return
+    ctx.outcome(("a3_selection", v, bad is None))
+    if bad:
+        ctx.violation("selection|%s" % bad[0], "the selected entry / grouping is not the documented one", case, bad[1], bad[2])
+
+
 # ===========================================================================
 # shards / dispatch
 # ===========================================================================
@@ -3453,13 +3799,15 @@ FAMILIES = {
     "alias_reuse": (gen_alias, 1, 1),
     "order": (gen_order, 1, 1),
     "audit2": (gen_audit2, 3, 3),
+    "audit3": (gen_audit3, 1, 1),
 }
 CHECKERS = {"fasta": check_fasta, "fasta_multi": check_fasta_multi, "fastq": check_fastq, "fastq_multi": check_fastq_multi,
             "gb": check_gb, "gb_locus": check_gb_locus, "gb_field": check_gb_field, "gff": check_gff, "gff_annot": check_gff_annot,
             "general": check_general, "gb_unspec": check_gb_unspec, "gb_many": check_gb_many,
             "fastq_flavour": check_fastq_flavour, "num_flavour": check_num_flavour, "alias": check_alias, "reuse": check_reuse, "a2_copy": check_a2_copy,
             "a2_fastq_typed": check_a2_fastq_typed, "a2_resize": check_a2_resize, "a2_derived": check_a2_derived,
-            "a2_alignment": check_a2_alignment}
+            "a2_alignment": check_a2_alignment, "a3_merge": check_a3_merge, "a3_align_names": check_a3_align_names,
+            "a3_ambient": check_a3_ambient, "a3_precedence": check_a3_precedence, "a3_selection": check_a3_selection}
 
 
 def shards(tier, seed):
